@@ -129,7 +129,7 @@ def trig(eng, x):
         return 1, 0
     xt = term(x, True)
     c, s = _uf1(eng, 'cos')(xt), _uf1(eng, 'sin')(xt)
-    ax(eng, 'cos^2+sin^2=1', c * c + s * s == 1)
+    ax(eng, 'cos^2+sin^2=1; cos 0 = 1, sin 0 = 0', z3.And(c * c + s * s == 1, z3.Implies(xt == 0, z3.And(c == 1, s == 0))))
     return SV(c, 'real'), SV(s, 'real')
 
 
@@ -214,6 +214,10 @@ def np_array(eng, args, kw):
     if isinstance(args[0], SSeq) and args[0].label == 'range':
         AXIOMS_USED.add('np.array(range(n)) / np.arange(n) = [0, 1, ..., n-1]')
         return SArr(lambda idx: idx[0], 1, 'int', 'iota', args[0].length)
+    if isinstance(args[0], SList) and not args[0].is_concrete():
+        # np.array(list of rows) of unbounded length: the same sequence of rows
+        AXIOMS_USED.add('np.array(list of rows) keeps the rows in order (unbounded list: modelled as the list)')
+        return args[0].copy()
     d = to_nd(eng, args[0])
     if not isinstance(d, list):
         return d
@@ -591,6 +595,19 @@ def _minmax(eng, args, kw, op):
         if xs is None:
             if isinstance(args[0], SSet) and args[0].base is None:
                 xs = [SV(a, 'int') if not isinstance(a, int) else a for a in args[0].adds]
+            elif isinstance(args[0], (SSeq, SList)) and not isinstance(args[0], SSet):
+                seq = eng.as_seq(args[0])
+                AXIOMS_USED.add('max/min of a non-empty sequence is an element and a bound')
+                if eng.decide(r_cmp('<=', seq.length, 0)):
+                    raise PyRaise('ValueError', ('min/max of empty sequence',))
+                w = fresh_int('argext')
+                eng.assume(b_and(r_cmp('>=', w, 0), r_cmp('<', w, seq.length)))
+                val = seq.at(w)
+                jj = z3.Int(fresh_name('jj'))
+                other = seq.at(SV(jj, 'int'))
+                bound = term(other, True) <= term(val, True) if op == '>' else term(other, True) >= term(val, True)
+                eng.pc.append(z3.ForAll([jj], z3.Implies(z3.And(jj >= 0, jj < term(seq.length)), bound)))
+                return val
             elif isinstance(args[0], SSet):
                 # axiom: max(S) is an element of S and an upper bound (min: lower bound)
                 AXIOMS_USED.add('max/min of a non-empty set is a member and a bound')
